@@ -534,8 +534,11 @@ fn grid_jobs(tier: Tier) -> Vec<Job> {
     let maxn = if thorough { 40 } else { 24 };
     for n in 5..=maxn {
         for fd in 2..=4u32 {
-            for threads in [1u32, 2, 4] {
+            for threads in [1u32, 2, 4, 8, 16] {
                 if !thorough && threads == 4 && n % 2 == 0 {
+                    continue;
+                }
+                if threads >= 8 && (n % 6 != 1 || fd != 2) && !thorough {
                     continue;
                 }
                 // distinct keys (bytes must equal the sorted build) ...
@@ -879,7 +882,7 @@ fn main() {
         tier,
         st,
         &rep,
-        "SCHED: the real cmd::map::run / cmd::set::run (merge.rs, util.rs, app.rs included by path) run in-process; every channel send/receive, spawn and thread exit is a scheduling point; for each listed (input, batch size, fd-limit, threads, merge mode) ALL interleavings are explored with happens-before state caching; in every complete execution: exit Ok, no deadlock, every temp file created once, output opens, verifies, conforms to the v3 format (independent decoder), content == model merge (sum/max/min per key over all rows; distinct lines for sets), bytes identical across all schedules; configuration grid under the default schedule: every row sequence of length <= 3 (thorough 4) over {a,1 a,2 b,1 b,2} (sets: {a,b,ab}) x batch 1..R x fd-limit 2..4 x threads 1..4 x 3 modes x one/two input files; many-batches family: 5..24 (thorough 40) rows with batch size 1 x fd-limit 2..4 x threads {1,2,4} with distinct keys, keys repeated in three batches (3 modes) and line sets; plus byte identity with the --sorted build and a library build for inputs without repeated keys; the real binary free-running on a subset. non-trivial = distinct happens-before states of explored configurations".into(),
+        "SCHED: the real cmd::map::run / cmd::set::run (merge.rs, util.rs, app.rs included by path) run in-process; every channel send/receive, spawn and thread exit is a scheduling point; for each listed (input, batch size, fd-limit, threads, merge mode) ALL interleavings are explored with happens-before state caching; in every complete execution: exit Ok, no deadlock, every temp file created once, output opens, verifies, conforms to the v3 format (independent decoder), content == model merge (sum/max/min per key over all rows; distinct lines for sets), bytes identical across all schedules; configuration grid under the default schedule: every row sequence of length <= 3 (thorough 4) over {a,1 a,2 b,1 b,2} (sets: {a,b,ab}) x batch 1..R x fd-limit 2..4 x threads 1..4 x 3 modes x one/two input files; many-batches family: 5..24 (thorough 40) rows with batch size 1 x fd-limit 2..4 x threads {1,2,4,8,16} with distinct keys, keys repeated in three batches (3 modes) and line sets; plus byte identity with the --sorted build and a library build for inputs without repeated keys; the real binary free-running on a subset. non-trivial = distinct happens-before states of explored configurations".into(),
         vec![
             "threads of merge.rs interact only through the channels (immutable Arcs otherwise); files are written by one batch and read only in later generations; checked by the unique-file-name trace".into(),
             "two prefixes with equal per-thread histories (incl. identities of received messages) are the same Mazurkiewicz trace and have the same futures".into(),
